@@ -13,7 +13,7 @@ class C19(Prop):
     COQ_TARGETS = ["theories/Properties/C19.vo"]
     MODEL_TARGETS = ["theories/Model/Process.vo", "theories/Spec/ProcessSpec.vo", "theories/Model/ProcessCase.vo"]
     CASE_HEADER = "From Boreal Require Import Base.Prelude Model.Process Spec.ProcessSpec Model.ProcessCase."
-    HARNESS_BINS = ("c19",)
+    HARNESS_BINS = ("c19", "c19e")
     KF = {}
     RULE = ("synthetic /proc/<pid>/{maps,mem,pagemap} and backing files are materialised on disk and walked by the real "
             "LinuxProcessMemory (hook verif_process_memory) with a generated op sequence over next/fetch/reset; page "
@@ -27,7 +27,9 @@ class C19(Prop):
                "hook verif_process_memory (constructs the real LinuxProcessMemory over given files)"]
     ASSUMPTIONS = ["procfs behaviour (maps format, pagemap bit layout, read_exact on /proc/pid/mem) is as documented in "
                    "proc(5); the victim does not change between listing and fetch",
-                   "end-to-end scan of a live victim process is exercised only by the thorough tier"]
+                   "end-to-end: a cooperating victim process (anonymous, private and shared file mappings, needles near "
+                   "page and chunk boundaries, pages modified after mapping) is scanned through the real /proc with "
+                   "Scanner::scan_process: 8 layouts x 4 settings in the quick tier, 200 x 4 in the thorough tier"]
 
     # ---------------------------------------------------------------- generation
     def gen_case(self, rng):
@@ -113,8 +115,54 @@ class C19(Prop):
         return {"page": page, "chunk": chunk, "max_fetch": max_fetch, "regions": regions, "mem_size": mem_size,
                 "mem_segs": mem_segs, "pm_entries": pm_entries, "pm_bits": pm_bits, "ops": ops}
 
+    def gen_e2e(self, rng):
+        """A live victim process: mappings with needles at controlled distances from page / chunk boundaries."""
+        NL = 12
+        maps = []
+        for i in range(rng.range(1, 3)):
+            pages = rng.range(1, 5)
+            ln = pages * 4096
+            kind = rng.choice(["anon", "file_private", "file_private", "file_shared"])
+            cands = sorted(set([rng.choice([0, 1, 10, 4096 - NL, 4096 - NL + 1, 4090, 4095, 4096, 4097, 8192 - 6, 8192,
+                                            ln - NL, ln - NL - 1, rng.range(0, ln - NL)]) for _ in range(rng.range(2, 6))]))
+            offs = []
+            for o in cands:
+                if 0 <= o <= ln - NL and all(abs(o - p) >= NL for p in offs):
+                    offs.append(o)
+            m = {"kind": kind, "pages": pages, "plant": [], "erase": [], "disk_needles": [], "file_len": 0}
+            if kind == "anon":
+                m["plant"] = offs
+                present = list(offs)
+            else:
+                flen = rng.choice([ln, ln - rng.range(1, 4095), ln + 100])
+                m["file_len"] = flen
+                disk, plant, erase = [], [], []
+                for o in offs:
+                    c = rng.below(3)
+                    if c == 0 and o + NL <= flen:
+                        disk.append(o)                       # on disk, untouched in memory
+                    elif c == 1 and o + NL <= flen:
+                        disk.append(o); erase.append(o)      # on disk, erased by the process
+                    else:
+                        plant.append(o)                      # written by the process only
+                m["disk_needles"], m["plant"], m["erase"] = disk, plant, erase
+                present = sorted([o for o in disk if o not in erase] + plant)
+            m["present"] = sorted(present)
+            maps.append(m)
+        configs = [{}]
+        for _ in range(3):
+            c = {}
+            if rng.chance(3, 4):
+                c["chunk"] = rng.choice([4096, 8192, 5000, 1000, 4097, 12288, 1, 4095])
+            if rng.chance(1, 2):
+                c["max_fetch"] = rng.choice([4096, 8192, 5000, 100, 12288])
+            configs.append(c)
+        return {"kind": "e2e", "mappings": maps, "configs": configs}
+
     def generate(self, ctx, rng, n):
-        return [self.gen_case(rng.fork("c%d" % i)) for i in range(n)]
+        cases = [self.gen_case(rng.fork("c%d" % i)) for i in range(n)]
+        ne = 8 if ctx.tier == "quick" else 200
+        return cases + [self.gen_e2e(rng.fork("e%d" % i)) for i in range(ne)]
 
     def budget(self, tier):
         return 320 if tier == "quick" else 6000
@@ -165,6 +213,20 @@ class C19(Prop):
     def execute(self, ctx, cases):
         base = os.path.join(WORK, "c19_%d" % os.getpid())
         ctx.workdir = base
+        os.makedirs(base, exist_ok=True)
+        e2e_ix = [i for i, c in enumerate(cases) if c.get("kind") == "e2e"]
+        e2e_out = core.harness_run(ctx.binp, "c19e", [dict(cases[i], workdir=base) for i in e2e_ix], shards=4)
+        syn_ix = [i for i, c in enumerate(cases) if c.get("kind") != "e2e"]
+        syn_out = self.execute_synthetic(ctx, [cases[i] for i in syn_ix], base)
+        outs = [None] * len(cases)
+        for i, o in zip(e2e_ix, e2e_out):
+            outs[i] = o
+            ctx.count("e2e victim")
+        for i, o in zip(syn_ix, syn_out):
+            outs[i] = o
+        return outs
+
+    def execute_synthetic(self, ctx, cases, base):
         hc = []
         for i, c in enumerate(cases):
             d = os.path.join(base, "%d" % i)
@@ -190,7 +252,25 @@ class C19(Prop):
         return "{| r_start := %d; r_len := %d; r_backed := %s; r_foff := %d; r_file := %s |}" % (
             r["start"], r["len"], gbool(r["backed"]), r["foff"], gbytes(bytes.fromhex(r["file_hex"])))
 
+    def term_e2e(self, ctx, case, out):
+        if not isinstance(out, dict) or "results" not in out:
+            return (False, False, 0)
+        terms = []
+        for cfg, res in zip(case["configs"], out["results"]):
+            if res.get("error"):
+                return (False, False, 0)
+            prm = "{| chunk := %s; max_fetch := %d; page := 4096 |}" % (
+                gopt(cfg.get("chunk"), gN), cfg.get("max_fetch", 1024 * 1024 * 1024))
+            maps = glist("(%d, %s, %s)" % (m["pages"] * 4096, glist("%d" % x for x in m["present"]),
+                                          glist("%d" % x for x in sorted(f)))
+                         for m, f in zip(case["mappings"], res["found"]))
+            terms.append("C19e_case %s %d %s" % (prm, out["needle_len"], maps))
+        return ("(fold_right (fun t acc => let '(a, b, k) := t in let '(a', b', k') := acc in "
+                "(a && a', b && b', N.max k k')) (true, true, 0) %s)" % glist(terms))
+
     def term(self, ctx, case, out):
+        if case.get("kind") == "e2e":
+            return self.term_e2e(ctx, case, out)
         if not isinstance(out, dict) or "outs" not in out:
             return (False, False, 0)
         regs = glist([self.g_region(r) for r in case["regions"] if r["readable"]])
@@ -218,6 +298,8 @@ class C19(Prop):
         return "C19_case %s %s %s %s %s" % (fs, prm, regs, ops, glist(outs))
 
     def nontrivial(self, case, out):
+        if case.get("kind") == "e2e":
+            return json.dumps(case, sort_keys=True) if isinstance(out, dict) and "results" in out else None
         if not isinstance(out, dict) or "outs" not in out:
             return None
         descs = [o for o in out["outs"] if o["t"] == "desc"]
@@ -230,6 +312,8 @@ class C19(Prop):
         return None
 
     def sample(self, case, out):
+        if case.get("kind") == "e2e":
+            return {"case": case, "impl": out}
         c = dict(case)
         c["regions"] = [{k: (v if k != "file_hex" else v[:32] + "...") for k, v in r.items()} for r in case["regions"]]
         c["mem_segs"] = [[a, h[:32] + "..."] for a, h in case["mem_segs"]]
